@@ -311,7 +311,7 @@ def validate_traces(trace_module, traces, *, cfg_extra="", shards=None, timeout=
         tf = os.path.join(wd, "traces.json")
         with open(tf, "w") as fh:
             json.dump(ch, fh)
-        cmd = ["java", "-XX:+UseParallelGC", "-Xss16m", "-Xmx3g", "-Djava.io.tmpdir=" + wd]
+        cmd = ["java", "-XX:+UseParallelGC", "-Xss512m", "-Xmx3g", "-Djava.io.tmpdir=" + wd]
         if dfs:
             cmd.append("-Dtlc2.tool.queue.IStateQueue=StateDeque")
         cmd += ["-cp", TLA_JAR, "tlc2.TLC", "-metadir", os.path.join(wd, "meta"),
